@@ -56,11 +56,20 @@ pub fn build(r: &Ref, inst: &Inst, a: &Value, keys: &BTreeMap<u64, (Vec<u8>, Vec
         "xD" => (d * x, x),
         _ => (unrelated(9), Scalar::ZERO),
     };
+    // "lo": Abar = Bbar = T, a point of order 3 outside G1; sigma in {0, 1, 2} and e^ = (sigma - c) mod 3
+    let lo = pts["A"].as_str() == Some("lo");
+    let (abar, bbar, sg) = if lo { (order3_point(), order3_point(), Scalar::ONE) } else { (abar, bbar, sg) };
     let t1s = d * t1 + abar * sg;
     let t2s = bv * t2;
     let dpairs: Vec<(u64, Scalar)> = dp.iter().map(|(i, m)| (*i as u64, *m)).collect();
     let c = r.challenge(s, &api, &dpairs, &abar, &bbar, &d, &t1s, &t2s, &dom, &ph);
     let r3 = if yy == Scalar::ZERO { Scalar::ZERO } else { (t2 - c) * yy.invert().unwrap() };
+    let sg = if lo {
+        let c_mod3 = sc_bytes(&c).iter().map(|&b| b as u64).sum::<u64>() % 3; // 256 = 1 (mod 3)
+        Scalar::from((1 + 3 - c_mod3) % 3)
+    } else {
+        sg
+    };
     let p = RProof { abar, bbar, d, e_cap: sg, r1_cap: t1 - xx * c, r3_cap: r3, m_cap: vec![Scalar::ZERO; u], challenge: c };
     let js = json!({"BBSplus": {
         "Abar": serde_json::to_value(&p.abar).unwrap(), "Bbar": serde_json::to_value(&p.bbar).unwrap(),
@@ -71,4 +80,44 @@ pub fn build(r: &Ref, inst: &Inst, a: &Value, keys: &BTreeMap<u64, (Vec<u8>, Vec
         "challenge": serde_json::to_value(&p.challenge).unwrap(),
     }});
     (Some(r.proof_encode(&p)), js.to_string())
+}
+
+/// [n]P for a big-endian integer n (no reduction modulo the group order)
+fn mul_be(p: &G1Projective, n_be: &[u8]) -> G1Projective {
+    let mut acc = G1Projective::IDENTITY;
+    for byte in n_be {
+        for bit in (0..8).rev() {
+            acc = acc.double();
+            if (byte >> bit) & 1 == 1 {
+                acc += p;
+            }
+        }
+    }
+    acc
+}
+
+/// a point of order 3 on E(Fp): on the curve, outside the prime-order subgroup G1
+pub fn order3_point() -> G1Projective {
+    static T: std::sync::OnceLock<G1Projective> = std::sync::OnceLock::new();
+    *T.get_or_init(|| {
+        // r (order of G1) and h / 3 (h the cofactor of E(Fp), 3 || h)
+        let r = hex::decode("73eda753299d7d483339d80809a1d80553bda402fffe5bfeffffffff00000001").unwrap();
+        let h_div_3 = hex::decode("13242eaac71ca0722eaae38e55558e39").unwrap();
+        for ctr in 1u32..10_000 {
+            let mut x = [0u8; 48];
+            x[0] = 0x80;
+            x[44..48].copy_from_slice(&ctr.to_be_bytes());
+            let p = bls12_381_plus::G1Affine::from_compressed_unchecked(&x);
+            if bool::from(p.is_none()) {
+                continue;
+            }
+            let t = mul_be(&mul_be(&G1Projective::from(p.unwrap()), &r), &h_div_3);
+            if bool::from(t.is_identity()) {
+                continue;
+            }
+            assert!(bool::from((t + t + t).is_identity()));
+            return t;
+        }
+        panic!("no point of order 3 found");
+    })
 }
